@@ -1027,6 +1027,9 @@ class BaselineOracle:
             newc = np.array([to_float(x) for x in kw["new_coord"]])
             inside = (newc >= c.min()) & (newc <= c.max())
             src = np.moveaxis(np.asarray(pre.values), k, 0).reshape(len(c), -1)
+            if np.asarray(res.coords[dim]).shape != newc.shape or not np.allclose(np.asarray(res.coords[dim], dtype=float), newc, rtol=1e-12, atol=0):
+                out.append("C14:interp-axis-not-the-requested-grid:" + sig)
+                return out
             got = np.moveaxis(np.asarray(res.values), k, 0).reshape(len(newc), -1)
             for j in range(src.shape[1]):
                 if np.iscomplexobj(src):
